@@ -266,12 +266,14 @@ theorem phaseCase_noUp (c : Cfg) (s : St) (h6 : s.phase ≠ 6) :
     · exact via _ (none_ _ (deliver_trace c s))
   · rw [pc12 c s h]; exact via _ (one _ (.spass s.scursor (runSend c.send s.toFState).2) (by simp [sendPass, emit, liftF]) rfl)
   · rw [pc13 c s h]; split
-    · apply via
-      unfold respHeaders; split
-      · exact none_ _ rfl
-      · split
-        · exact one _ _ rfl rfl
-        · exact one _ _ rfl rfl
+    · split
+      · exact none_ _ (afterPEd_true_frame c s).1
+      · apply via
+        unfold respHeaders; split
+        · exact none_ _ rfl
+        · split
+          · exact one _ _ rfl rfl
+          · exact one _ _ rfl rfl
     · exact none_ _ rfl
   · rw [pc14 c s h]; split
     · split
@@ -698,12 +700,13 @@ theorem specSafety_run (c : Cfg) (n : Nat) : specSafety c (flat (run c n init).t
     · rfl
     · exact absurd (deny_noUp c n (denied_flat hd)) (forwarded_flat hf)
 
-theorem spec_final (c : Cfg) (hex : (final c).exhausted = false) : spec c (flat (final c).trace) = true := by
+theorem spec_final (c : Cfg) (hex : (final c).exhausted = false) (hrt : (final c).retried = false) :
+    spec c (flat (final c).trace) = true := by
   unfold spec
   rw [show (final c).trace = (run c fuel init).trace from rfl, specSafety_run c fuel]
   simp only [Bool.true_and]
   apply singleReplyOK_of
   intro ha hnt hno
-  exact single_reply_of c (final c) (run_Ginv c fuel init (init_Ginv c)) (final_halted c) ha hnt hno hex
+  exact single_reply_of c (final c) (run_Ginv c fuel init (init_Ginv c)) (final_halted c) ha hnt hno hex hrt
 
 end MosnVerif.Model.FilterSpec
